@@ -38,7 +38,7 @@ DEPTHS = list(range(0, MAXDEPTH + 1))
 
 BOUNDS = {
     "quick": dict(Scope="q", FullDepth=3, Levels=1, MaxN1=1, MaxN2=2,
-                  n_random_pts=1500, n_rs_pts=120, cover_conc=6, cover_rand=160, cover_rs_rand=40, cover_star=400, pairs_star=300, HistN2=1, HistCalls=2, hist_rand=150, hist_rs_rand=50, reps_per_row=2, ScaleSizes={100000, 100001, 250000}, deep_star=250,
+                  n_random_pts=1500, n_rs_pts=120, cover_conc=6, cover_rand=160, cover_rs_rand=40, cover_star=400, pairs_star=300, HistN2=1, HistCalls=2, hist_rand=150, hist_rs_rand=50, reps_per_row=2, ScaleSizes={100000, 100001, 250000}, deep_star=180,
                   pairs_rand=500, pairs_rs_rand=200, cap_cover=2e5, cap_pairs=3e4, cap_span=2e4),
     "thorough": dict(Scope="t", FullDepth=5, Levels=2, MaxN1=1, MaxN2=2,
                      n_random_pts=40000, n_rs_pts=414, cover_conc=8, cover_rand=3000, cover_rs_rand=500, cover_star=5000, pairs_star=3000, HistN2=1, HistCalls=3, hist_rand=2500, hist_rs_rand=800, reps_per_row=12, ScaleSizes={65535, 65536, 65537, 100000, 100001, 131073, 200000, 200001, 250000, 300007, 1048577}, deep_star=4000,
@@ -647,41 +647,143 @@ def run_scale(job):
     return rec, {"rmin": rmin, "rmax": rmax, "nbin": nbin, "scale_arg": sc, "depth": depth}
 
 
-DEEP_EPS = ["1e-4", "5e-5", "2e-5", "1e-5", "5e-6", "2e-6", "1e-6"]
-for _k in DEEP_EPS:
-    hl.EPS.setdefault(_k, F(int(_k[0]), 10 ** int(_k[3:])))
+BARY = []
+for _a, _b, _c in [(.5, .25, .25), (.4, .4, .2), (.6, .2, .2), (.44, .44, .12), (.46, .46, .08), (.7, .15, .15), (.8, .1, .1), (.34, .33, .33)]:
+    BARY += [(_a, _b, _c), (_b, _c, _a), (_c, _a, _b)]
+COS_MARGIN = 1.5e-15        # a probe is at least this far (in the cosine) from the circle: ~4x the rounding of cos(r) and of a corner test
+EDGE_MARGIN = 1.5e-15       # a targeted probe is this far inside its triangle in (v_i x v_j).p: lookup_id's own tolerance is 1e-15
 
 
-def rand_star_cover_deep(rng, n, cap):
-    """circles of a few leaf sizes at depths 13..24 around arbitrary centres, probes on 48 rays just inside and just
-    outside.  A probe is >= 1.5e-15/sin(r) rad (in the cosine: 1.5e-15, some 4x the rounding of cos(r) and of the
-    corner tests) away from the circle: eps is chosen per circle to guarantee that (input selection only)."""
+def deep_cover_jobs(rng, n, cap):
+    """circles of about 1..6 leaf sizes at depths 13..24 around arbitrary centres (input selection only):
+    radius = h*eps/2 with h odd and eps/2 >= COS_MARGIN/sin(r)"""
     out = []
     tries = 0
-    while len(out) < n and tries < 50 * n:
+    while len(out) < n and tries < 100 * n:
         tries += 1
-        depth = rng.randrange(13, 25)
+        depth = rng.choice([13, 14, 15, 16, 17, 18, 19, 20, 21, 22, 22, 23, 23, 23, 24, 24, 24, 24])
         leaf = 90.0 / 2 ** depth
-        target = leaf * rng.uniform(0.8, 8.0)
-        key = rng.choice(DEEP_EPS)
-        eps = hl.EPS[key]
-        h = int(round(2 * target / float(eps))) | 1
-        if not 3 <= h <= 81:
+        target = leaf * rng.uniform(1.2, 5.0 if depth < 22 else 3.0)
+        hmax = int(target * np.sin(np.radians(target)) / (np.degrees(COS_MARGIN)))
+        if hmax < 5:
             continue
+        h = (min(int(0.8 * hmax), 2001) - rng.randrange(0, 3)) | 1          # the finest lattice the margin allows
+        if h > hmax or h < 5:
+            continue
+        eps = F(int(round(2 * target / h * 1e12)), 10 ** 12)
         r = float(h * eps / 2)
-        if float(eps) / 2 < 8.6e-14 / np.sin(np.radians(r)) or hl.trixels_in_cap(r, depth) > cap:
+        if float(eps) / 2 < np.degrees(COS_MARGIN) / np.sin(np.radians(r)) or hl.trixels_in_cap(r, depth) > cap:
             continue
-        ndir = 48
-        phi0 = rng.uniform(0.0, 360.0)
-        probes, dirs = [[0, 0]], [0.0]
-        for d in range(ndir):
-            phi = (phi0 + 360.0 * d / ndir + rng.uniform(-2, 2)) % 360.0
-            for t in (-3, -1, 1, 3, 5):
-                probes.append([0, (h + t) // 2])
-                dirs.append(phi)
-        case = {"kind": "cover", "lat": "gc", "c": [0, 0], "rad": [0, h], "probes": probes}
-        out.append((case, {"centre": rand_centre(rng), "dirs": dirs}, key, depth))
+        out.append({"deep": True, "depth": depth, "eps": "%d/%d" % (eps.numerator, eps.denominator), "h": h, "centre": rand_centre(rng),
+                    "pick": rng.randrange(1 << 30), "incl_kw": depth % 2 == 0})
     return out
+
+
+def run_cover_deep(job):
+    """rays around the centre (offsets beyond lookup_id's edge tolerance) plus TARGETED probes: lattice positions well inside
+    the triangles reported as fully inside, as far from the centre as they go.  Where a probe is looked for is chosen here;
+    whether it is inside the circle is decided by TLC from its arc, which triangle it is in by lookup_id."""
+    rng = random.Random(job["pick"])
+    eps = F(job["eps"])
+    h, d = job["h"], job["depth"]
+    cra, cdec = job["centre"]
+    r = float(h * eps / 2)
+    rec = {"kind": "cover", "lat": "gc", "err": "none", "depth": d, "c": [0, 0], "rad": [0, h], "probes": [[0, 0]],
+           "cid": [-1, 0, 0], "pid": [], "listed": False, "incl": [], "full": [], "cin": False, "pin": [], "pfull": []}
+    meta = {"ra": cra, "dec": cdec, "radius": r, "nincl": -1, "nfull": -1, "targeted": 0}
+    try:
+        hh = htm(d)
+        incl = np.asarray(hh.intersect(cra, cdec, r, inclusive=True) if job["incl_kw"] else hh.intersect(cra, cdec, r))
+        full = np.asarray(hh.intersect(cra, cdec, r, inclusive=False))
+        cid = int(np.asarray(hh.lookup_id(cra, cdec)).ravel()[0])
+        cen = hl.xyz_ld(cra, cdec)
+        # rays: a point up to 1e-15/|v_i x v_j| outside a triangle may still be given that triangle's id
+        cc = hl.trixel_corners(cid, d)
+        mcross = min(float(np.sqrt((n * n).sum())) for n in hl.edge_normals(cc))
+        need = 3 * np.degrees(1e-15 / mcross) + np.degrees(COS_MARGIN) / np.sin(np.radians(r))
+        tmin = int(np.ceil(need / (float(eps) / 2))) | 1
+        probes, dirs = [[0, 0]], [0.0]
+        phi0 = rng.uniform(0, 360)
+        for k in range(24):
+            phi = (phi0 + 15.0 * k + rng.uniform(-3, 3)) % 360.0
+            for t in (-tmin - 2, -tmin, tmin, tmin + 2):
+                if (h + t) // 2 >= 0:
+                    probes.append([0, (h + t) // 2])
+                    dirs.append(phi)
+        # targeted: the full triangles that reach farthest out
+        cand = []
+        fl = [int(v) for v in full]
+        if len(fl) > 120:
+            fl = rng.sample(fl, 120)
+        tri = []
+        for tid in fl:
+            vs = hl.trixel_corners(tid, d)
+            tri.append((max(float(hl.sep_ld(cen, v)) for v in vs), tid, vs))
+        tri.sort(key=lambda x: (-x[0], x[1]))
+        # aimed probes: lattice positions strictly inside a reported-full triangle, next to its corners.  At these depths
+        # lookup_id's edge tolerance (1e-15 in (v_i x v_j).p) is up to a tenth of a triangle, so "which triangle contains the
+        # position" is taken from the mesh geometry (reconstruction validated each run), with a margin of 0.5 percent of
+        # the edge length (>= 50x the rounding of the library's own corners)
+        aimed = {}
+        for _far, tid, vs in tri[:40]:
+            nn = hl.edge_normals(vs)
+            nlen = [float(np.sqrt((n * n).sum())) for n in nn]
+            geo = max(0.005 * min(nlen), 5e-14)                       # required distance (rad) from every edge
+            g = hl._unit(vs[0] + vs[1] + vs[2])
+            for v in vs:
+                for f in (0.03, 0.07, 0.15, 0.3):
+                    pf = hl._unit((1 - f) * v + f * g)
+                    t = float(hl.sep_ld(cen, pf))
+                    phi = hl.position_angle(cra, cdec, pf)
+                    for b in (int(t / float(eps)) + 1, int(t / float(eps)), int(t / float(eps)) - 1):
+                        if b < 0 or (tid, b) in aimed:
+                            continue
+                        q = hl.xyz_ld(*hl.star_point(cra, cdec, phi, (0, b), eps))
+                        if min(m / l for m, l in zip(hl.edge_margins(q, vs, nn), nlen)) >= geo:
+                            aimed[(tid, b)] = phi
+        cand = sorted(((b, phi, tid) for (tid, b), phi in aimed.items()), key=lambda x: (-x[0], x[2], x[1]))[:90]
+        aim_ids = []
+        for b, phi, tid in cand:
+            probes.append([0, b])
+            dirs.append(phi)
+            aim_ids.append(tid)
+        meta["targeted"] = len(cand)
+        pra, pdec = hl.star_points([cra, cdec], dirs, probes, eps)
+        pid = np.asarray(hh.lookup_id(np.array(pra), np.array(pdec)))
+        if aim_ids:
+            pid[len(pid) - len(aim_ids):] = aim_ids                  # aimed probes: the triangle that contains them geometrically
+        rec["how"] = ["lookup"] * (len(pid) - len(aim_ids)) + ["aimed"] * len(aim_ids)
+        want = np.unique(np.append(pid, cid))
+        in_incl = set(incl[np.isin(incl, want)].tolist())
+        in_full = set(full[np.isin(full, want)].tolist())
+        rec.update(probes=probes, cid=hl.limbs(cid), pid=[hl.limbs(v) for v in pid], cin=cid in in_incl,
+                   pin=[int(v) in in_incl for v in pid], pfull=[int(v) in in_full for v in pid])
+        meta["nincl"], meta["nfull"] = int(incl.size), int(full.size)
+        if incl.size <= LIST_MAX:
+            rec.update(listed=True, incl=[hl.limbs(v) for v in incl], full=[hl.limbs(v) for v in full])
+    except Exception as e:  # noqa
+        rec["err"] = _ename(e)
+    return rec, meta
+
+
+def _check_trixel_geometry(seed, n=150):
+    """the subdivision used to aim the targeted probes reproduces the library's triangles: the centroid of the
+    reconstructed triangle of a looked-up position has that id, and the position is inside it (exit 2 otherwise)"""
+    rng = random.Random(seed * 77 + 5)
+    for _ in range(n):
+        d = rng.randrange(1, 25)
+        ra, dec = rand_centre(rng)
+        tid = int(np.asarray(htm(d).lookup_id(ra, dec)).ravel()[0])
+        vs = hl.trixel_corners(tid, d)
+        g = hl._unit(vs[0] + vs[1] + vs[2])
+        gra = float((np.arctan2(g[1], g[0]) * 180 / np.pi) % 360)
+        gdec = float(np.arctan2(g[2], np.sqrt(g[0] * g[0] + g[1] * g[1])) * 180 / np.pi)
+        if int(np.asarray(htm(d).lookup_id(gra, gdec)).ravel()[0]) != tid or min(hl.edge_margins(hl.xyz_ld(ra, dec), vs)) < -2e-15:
+            raise MachineryError("trixel reconstruction disagrees with lookup_id at depth %d (id %d)" % (d, tid))
+
+
+def run_cover_any(job):
+    return run_cover_deep(job) if job.get("deep") else run_cover(job)
 
 
 def rand_pairs_cases(rng, n, lat, rs_pts):
@@ -1177,14 +1279,14 @@ def run(ctx):
             jobsC += concretise_cover(c, 2, rng, B["cap_cover"])
         for c, star in rand_star_cover(rng, B["cover_star"]):
             jobsC += concretise_cover(c, 1, rng, B["cap_cover"], star=star)
-        for c, star, key, depth in rand_star_cover_deep(rng, B["deep_star"], B["cap_cover"]):
-            jobsC.append({"abs": c, "circle": 0, "eps": key, "depth": depth, "incl_kw": depth % 2 == 0, "star": star})
+        jobsC += deep_cover_jobs(rng, B["deep_star"], B["cap_cover"])
         if not jobsC:
             raise MachineryError("no circle could be concretised")
-        out = pmap(run_cover, jobsC)
+        _check_trixel_geometry(ctx.seed)
+        out = pmap(run_cover_any, jobsC)
         items = [(rec, meta, {"part": "cover", "job": job}) for (rec, meta), job in zip(out, jobsC)]
         for rec, meta, rp in items:
-            ctx.count({"c": rp["job"]["abs"]["c"], "rad": rp["job"]["abs"]["rad"], "lat": rec["lat"], "circle": rp["job"]["circle"],
+            ctx.count({"c": rec["c"], "rad": rec["rad"], "lat": rec["lat"], "circle": rp["job"].get("circle"), "centre": rp["job"].get("centre"),
                        "eps": rp["job"]["eps"], "depth": rec["depth"]})
         ctx.sample({"intersect": {"ra": items[0][1]["ra"], "dec": items[0][1]["dec"], "radius": items[0][1]["radius"], "depth": items[0][0]["depth"]},
                     "n_listed": items[0][1]["nincl"], "n_full": items[0][1]["nfull"], "probes": len(items[0][0]["probes"])})
@@ -1197,8 +1299,10 @@ def run(ctx):
             raise MachineryError("vacuous: no probe ever fell into a full triangle")
         ctx.note(cover_depths=depths_seen)
         deep = [it for it in items if it[0]["depth"] >= 13]
-        if want("cover") and (len({it[0]["depth"] for it in deep}) < 10 or not any(any(it[0]["pfull"]) for it in deep)):
-            raise MachineryError("vacuous: deep circles (depth 13..24) missing or without a probe in a full triangle")
+        if len({it[0]["depth"] for it in deep}) < 10 or sum(it[1].get("targeted", 0) for it in deep) < len(deep) \
+                or not any(any(it[0]["pfull"]) for it in deep):
+            raise MachineryError("vacuous: deep circles (depth 13..24) missing, or without targeted probes in full triangles")
+        ctx.note(deep_circles=len(deep), targeted_probes=sum(it[1].get("targeted", 0) for it in deep))
         items_probe["cover"] = next(it for it in items if it[0]["id"] not in rej and it[0]["err"] == "none" and it[0]["lat"] == "gc"
                                     and it[0]["c"] in it[0]["probes"] and it[0]["pin"][it[0]["probes"].index(it[0]["c"])])
 
@@ -1377,7 +1481,7 @@ def replay(ctx, case):
         (rec, meta), = lookup_block((0, [(case["ra"], case["dec"])]))
         items = [(rec, meta, {"part": "lookup", "ra": case["ra"], "dec": case["dec"]})]
     elif part == "cover":
-        rec, meta = run_cover(case["job"])
+        rec, meta = run_cover_any(case["job"])
         items = [(rec, meta, {"part": "cover", "job": case["job"]})]
     elif part == "scale":
         job = dict(case["job"])
